@@ -33,7 +33,7 @@ func init() {
 		},
 		Run: run,
 		Floors: func(tier string) map[string]int64 {
-			return map[string]int64{"proofs_verified": 1000, "proof_tamperings": 2000, "reopens": 100, "permuted_rebuilds": 1000, "secure_tries": 100}
+			return map[string]int64{"proofs_verified": 1000, "proof_tamperings": 2000, "reopens": 100, "permuted_rebuilds": 1000, "secure_tries": 100, "copies_verified": 300, "proofs_with_pending_writes_verified": 2000}
 		},
 		PanicIsViolation: true,
 		Init:             core.QuietLogs,
@@ -94,6 +94,12 @@ type tr interface {
 }
 
 type secureWrap struct{ *trie.SecureTrie }
+
+type trieCopy struct {
+	t    tr
+	snap map[string][]byte
+	at   int
+}
 
 type proofList [][]byte
 
@@ -175,6 +181,7 @@ func run(c *core.Ctx) {
 	content := map[string][]byte{}
 	var pool [][]byte
 	var ops []op
+	var copies []trieCopy
 	nops := r.Range(5, 120)
 	reopens := 0
 	for i := 0; i < nops; i++ {
@@ -212,9 +219,26 @@ func run(c *core.Ctx) {
 				c.Violation("get/mismatch", fmt.Sprintf("key %x got %x want %x err %v", k, got, content[string(k)], err), ops)
 				return
 			}
-		case x < 88:
+		case x < 86:
 			t.Hash()
 			ops = append(ops, op{Kind: "hash"})
+		case x < 89 && len(copies) < 3:
+			// a struct copy shares nodes with the original (copy-on-write): the state layer takes such
+			// copies (SecureTrie.Copy, `cpy := *t`) as snapshots; both sides must evolve independently
+			var ct tr
+			if secure {
+				ct = sec.Copy()
+			} else {
+				cp := *plain
+				ct = &cp
+			}
+			snap := map[string][]byte{}
+			for k, v := range content {
+				snap[k] = v
+			}
+			copies = append(copies, trieCopy{ct, snap, len(ops)})
+			c.Count("copies_taken", 1)
+			ops = append(ops, op{Kind: "copy"})
 		default:
 			var root common.Hash
 			var err error
@@ -248,7 +272,99 @@ func run(c *core.Ctx) {
 			}
 		}
 	}
+	// proofs taken while writes are still pending (before any Hash/Commit of the last changes) must verify
+	// against the root computed afterwards
+	type pending struct {
+		key []byte
+		pl  proofList
+	}
+	var pend []pending
+	for p := 0; p < 3; p++ {
+		var k []byte
+		if len(content) > 0 && r.Chance(0.6) {
+			i := r.Intn(len(content))
+			for kk := range content {
+				if i == 0 {
+					k = []byte(kk)
+					break
+				}
+				i--
+			}
+			// deterministic choice regardless of map order
+			ks := make([]string, 0, len(content))
+			for kk := range content {
+				ks = append(ks, kk)
+			}
+			sort.Strings(ks)
+			k = []byte(ks[r.Intn(len(ks))])
+		} else {
+			k = genKey(r, &pool)
+		}
+		vk := k
+		if secure {
+			vk = crypto.Keccak256(k)
+		}
+		var pl proofList
+		if err := t.Prove(vk, 0, &pl); err != nil {
+			c.Violation("prove/error-with-pending-writes", err.Error(), ops)
+			return
+		}
+		pend = append(pend, pending{k, pl})
+	}
 	root := t.Hash()
+	for _, pp := range pend {
+		vk := pp.key
+		if secure {
+			vk = crypto.Keccak256(pp.key)
+		}
+		truth := content[string(pp.key)]
+		val, _, err := safeVerify(root, vk, dbOf(pp.pl))
+		c.Count("proofs_with_pending_writes_verified", 1)
+		if err != nil || !bytes.Equal(val, truth) {
+			c.Violation("proof/taken-with-pending-writes-rejected-or-wrong", fmt.Sprintf("key %x truth %x got %x err %v (%d proof nodes)", pp.key, truth, val, err, len(pp.pl)), ops)
+			return
+		}
+	}
+	// copies taken during the history still hold exactly the content they were taken with
+	for ci, cp := range copies {
+		ck := make([]string, 0, len(cp.snap))
+		for k := range cp.snap {
+			ck = append(ck, k)
+		}
+		sort.Strings(ck)
+		for _, k := range ck {
+			got, err := cp.t.TryGet([]byte(k))
+			if err != nil || !bytes.Equal(got, cp.snap[k]) {
+				c.Violation("copy/original-writes-visible-in-copy", fmt.Sprintf("copy %d (taken at op %d): key %x got %x want %x err %v", ci, cp.at, k, got, cp.snap[k], err), ops)
+				return
+			}
+		}
+		for k := range content {
+			if _, ok := cp.snap[k]; !ok {
+				if got, _ := cp.t.TryGet([]byte(k)); got != nil {
+					c.Violation("copy/original-writes-visible-in-copy", fmt.Sprintf("copy %d (taken at op %d): key %x written later to the original is visible in the copy", ci, cp.at, k), ops)
+					return
+				}
+			}
+		}
+		wantRoot, err := buildRoot(secure, ck, cp.snap, nil)
+		c.Count("copies_verified", 1)
+		if err != nil || cp.t.Hash() != wantRoot {
+			c.Violation("copy/root-differs-from-content", fmt.Sprintf("copy %d (taken at op %d): root %x, canonical root of its content %x", ci, cp.at, cp.t.Hash(), wantRoot), ops)
+			return
+		}
+		// and writes to the copy do not reach the original
+		nk := append([]byte("copy-only-"), byte(ci))
+		cp.t.TryUpdate(nk, []byte("x"))
+		if got, _ := t.TryGet(nk); got != nil {
+			c.Violation("copy/copy-writes-visible-in-original", fmt.Sprintf("copy %d: a key written to the copy is visible in the original", ci), ops)
+			return
+		}
+	}
+	if t.Hash() != root {
+		c.Violation("copy/original-root-changed-by-copy-activity", "root of the original changed while only its copies were used", ops)
+		return
+	}
 	keys := make([]string, 0, len(content))
 	for k := range content {
 		keys = append(keys, k)
